@@ -159,11 +159,17 @@ class Prover:
         # stage 2: direct, short budget
         # stage 1b: cone-of-influence pass (hypotheses unrelated to the goal dropped: a weakening, only 'unsat' is kept)
         if pending:
-            # stage 1a: identities need no hypotheses at all
+            # stage 1a: identities need no hypotheses at all; clauses with cuts often follow from the cuts alone
             tasks = []
             for ob in pending:
                 try:
-                    if not isinstance(ob.goal, QForall): tasks.append(Task(ob, 'goal-alone', [], ob.goal, [('z3-5.1.0', 3)]))
+                    if not isinstance(ob.goal, QForall):
+                        tasks.append(Task(ob, 'goal-alone', [], ob.goal, [('z3-5.1.0', 3)]))
+                        if ob.hyps:
+                            hc = [h for h in ob.hyps if is_z3(h)]
+                            tasks.append(Task(ob, 'from-the-cuts-alone', hc, ob.goal, [('z3-5.1.0', 5), ('cvc5-1.0.3', 5)]))
+                            gen = smt.generalize(hc + [ob.goal])
+                            tasks.append(Task(ob, 'from-the-cuts-generalised', gen[:-1], gen[-1], [('z3-5.1.0', 5), ('cvc5-1.0.3', 5)]))
                 except Exception:
                     pass
             run_tasks(tasks)
